@@ -19,6 +19,9 @@ static void emit_context_error(
  * (spec 3.3), not just be printed. */
 static int g_typecheck_error_diagnostics = 0;
 
+/* The (range a b) call currently being checked as the range of a for statement, if any */
+static ASTNode *g_checking_for_range = NULL;
+
 /* Type checking context */
 typedef struct {
     Environment *env;
@@ -1049,6 +1052,15 @@ static Type check_expression_impl(ASTNode *expr, Environment *env) {
             }
             
             /* Regular function call */
+
+            /* 'range' only exists as the iteration space of a for loop; neither backend has a range value */
+            if (strcmp(expr->as.call.name, "range") == 0 && expr != g_checking_for_range &&
+                !env_get_var_visible_at(env, "range", expr->line, expr->column)) {
+                emit_context_error("TYPE MISMATCH", expr->line, expr->column, 5,
+                                   "`range` can only be used as the range of a for loop.",
+                                   "Write: for i in (range a b) { ... }");
+                return TYPE_UNKNOWN;
+            }
 
             /* Built-ins: the registry knows arity and scalar parameter types.  Check the call's shape here,
              * before the per-builtin special cases below (several of which infer a result type without
@@ -3528,7 +3540,10 @@ static Type check_statement_impl(TypeChecker *tc, ASTNode *stmt) {
             }
 
             /* Range expression should return a range */
+g_checking_for_range = (stmt->as.for_stmt.range_expr &&
+                                    stmt->as.for_stmt.range_expr->type == AST_CALL) ? stmt->as.for_stmt.range_expr : NULL;
             check_expression(stmt->as.for_stmt.range_expr, tc->env);
+            g_checking_for_range = NULL;
 
             /* Check the loop body (increment loop depth for break/continue validation) */
             tc->loop_depth++;
